@@ -4819,7 +4819,16 @@ func ruleReadinessByFirstNode(c *Ctx, rule string) {
 					continue
 				}
 				okInit, why := false, "the scheduled set is "+describe(resolve(lk.X))
-				switch x := resolve(lk.X).(type) {
+				subject := resolve(lk.X)
+				// kept in a field of a small progress record: what its (only) writer stores there
+				if u, isU := subject.(*ssa.UnOp); isU && u.Op == token.MUL {
+					if fa, isF := u.X.(*ssa.FieldAddr); isF {
+						if sts := storesToField(pkgFuncs(L, genPkg), fieldKey(fa)); len(sts) == 1 {
+							subject = resolve(sts[0].Val)
+						}
+					}
+				}
+				switch x := subject.(type) {
 				case *ssa.Parameter:
 					okInit, why = true, "the provided-nodes parameter itself"
 				case *ssa.Call:
@@ -5795,14 +5804,41 @@ func ruleLoadErrorsOfEveryPackage(c *Ctx, rule string) {
 				n++
 				// the package: an element of a list at the running index of a loop over that list
 				base := resolve(fa.X)
+				// the element handed to a predicate by a library scan of the loaded list (slices.IndexFunc(pkgs, hasErrors))
+				if prm, isP := base.(*ssa.Parameter); isP && prm.Parent().Parent() != nil {
+					cl := prm.Parent()
+					for _, cs := range callsIn(cl.Parent()) {
+						if !strings.HasPrefix(cs.callee, "slices.") || len(cs.common.Args) != 2 {
+							continue
+						}
+						pred := cs.common.Args[1]
+						if mc, isMC := pred.(*ssa.MakeClosure); isMC {
+							pred = mc.Fn
+						}
+						if pred != ssa.Value(cl) {
+							continue
+						}
+						lst := resolve(cs.common.Args[0])
+						if ex, isEx := lst.(*ssa.Extract); isEx && ex.Index == 0 {
+							if call, isC := ex.Tuple.(*ssa.Call); isC && calleeOf(call.Common()) == "golang.org/x/tools/go/packages.Load" {
+								ok, why = true, "every element of the loaded list is inspected by "+cs.callee
+							}
+						}
+					}
+					continue
+				}
 				u, isU := base.(*ssa.UnOp)
 				if !isU || u.Op != token.MUL {
-					why = "the errors inspected are those of " + describe(base)
+					if !ok {
+						why = "the errors inspected are those of " + describe(base)
+					}
 					continue
 				}
 				ia, isIA := u.X.(*ssa.IndexAddr)
 				if !isIA || !isRangeIndex(ia.Index) {
-					why = "the errors inspected are those of " + describe(base)
+					if !ok {
+						why = "the errors inspected are those of " + describe(base)
+					}
 					continue
 				}
 				// the list: what packages.Load returned (directly, or the parameter of a helper that is handed it)
@@ -5830,7 +5866,9 @@ func ruleLoadErrorsOfEveryPackage(c *Ctx, rule string) {
 				}
 				fromLoad = check(list, 0)
 				if !fromLoad {
-					why = "the list walked is " + describe(list)
+					if !ok {
+						why = "the list walked is " + describe(list)
+					}
 					continue
 				}
 				ok, why = true, "every element of the loaded list is inspected"
